@@ -476,3 +476,16 @@ Definition msg_sender (sender : list str) : str * str :=
 Definition ATTACHMENT_DASH : str := s "attachment-".
 Definition msg_attachment (long short mime index_dec : str) : str * str :=
   (or_default long (or_default short (ATTACHMENT_DASH ++ index_dec)), or_default mime (s "application/octet-stream")).
+
+(* ================================================================== more mailbox variants (writer side) *)
+(* mboxo quoting: only lines starting with "From " get a ">" *)
+Definition esc_o_line (l : str) : str := if startswith l (s "From ") then GT :: l else l.
+Definition qmsg (f : str -> str) (m : mbox_msg) : mbox_msg := (fst m, map f (snd m)).
+(* the shape MBOX_FROM_PATTERN accepts: "From ", a non-space, anything, four digits, optional CR, LF *)
+Definition from_shape (a : N) (mid : str) (d1 d2 d3 d4 : N) (tail : str) : str :=
+  s "From " ++ a :: mid ++ [d1; d2; d3; d4] ++ tail.
+Definition line_end (t : str) : bool := str_eqb t [NL] || str_eqb t [CR; NL].
+(* an MMDF mailbox: every message between two lines of four ^A *)
+Definition MMDF_DELIM : str := [1; 1; 1; 1; 10].
+Definition mmdf_concat (msgs : list bmsg) : str :=
+  List.concat (map (fun m => MMDF_DELIM ++ fst m ++ LF ++ snd m ++ LF ++ MMDF_DELIM) msgs).
